@@ -1145,8 +1145,10 @@ class Process(StateMachine, persistence.Savable, metaclass=ProcessStateMachineMe
             interrupt_exception = process_states.PauseInterruption(msg_text)
             self._set_interrupt_action_from_exception(interrupt_exception)
             self._pausing = self._interrupt_action
-            # Try to interrupt the state
-            self._state.interrupt(interrupt_exception)
+            # Try to interrupt the state, unless it is only just being entered in which case there is nothing to
+            # interrupt yet and `step` runs the action as soon as the transition is complete
+            if not self._transitioning:
+                self._state.interrupt(interrupt_exception)
             return cast(futures.CancellableAction, self._interrupt_action)
 
         msg = MessageBuilder.pause(msg_text)
@@ -1217,11 +1219,9 @@ class Process(StateMachine, persistence.Savable, metaclass=ProcessStateMachineMe
         :return: True if playing, False otherwise
         """
         if not self.paused:
-            if self._pausing is not None:
-                # Not going to pause after all
-                if self._interrupt_action is self._pausing:
-                    self._set_interrupt_action(None)
-                self._pausing.cancel()
+            if self._pausing is not None and self._interrupt_action is self._pausing:
+                # Not going to pause after all (a pause that is already being carried out cannot be withdrawn)
+                self._set_interrupt_action(None)
                 self._pausing = None
             return True
 
@@ -1269,7 +1269,8 @@ class Process(StateMachine, persistence.Savable, metaclass=ProcessStateMachineMe
             self._set_interrupt_action_from_exception(interrupt_exception)
             self._killing = self._interrupt_action
             self._pausing = None  # A pending pause has just been superseded (and cancelled)
-            self._state.interrupt(interrupt_exception)
+            if not self._transitioning:
+                self._state.interrupt(interrupt_exception)
             return cast(futures.CancellableAction, self._interrupt_action)
 
         msg = MessageBuilder.kill(msg_text)
@@ -1379,10 +1380,17 @@ class Process(StateMachine, persistence.Savable, metaclass=ProcessStateMachineMe
                 return
 
             if self._interrupt_action:
-                self._interrupt_action.run(next_state)
+                # Detach the action so that a request made while it runs does not cancel it under its feet
+                action, self._interrupt_action = self._interrupt_action, None
+                action.run(next_state)
             else:
                 # Everything nominal so transition to the next state
                 self.transition_to(next_state)
+
+            # Requests made from within the transition (by listeners or hooks) could not be acted upon there
+            while self._interrupt_action is not None and not self.has_terminated():
+                action, self._interrupt_action = self._interrupt_action, None
+                action.run(None)
 
         finally:
             self._stepping = False
